@@ -20,7 +20,7 @@ import elementpath.aliases as ta
 
 from elementpath.namespaces import XML_ID, XML_LANG
 from elementpath.datatypes import AnyURI, Float, DayTimeDuration, YearMonthDuration, \
-    StringProxy, AnyAtomicType, Duration
+    StringProxy, AnyAtomicType, Duration, UntypedAtomic
 from elementpath.helpers import get_double, round_number
 from elementpath.xpath_nodes import XPathNode, ElementNode, TextNode, CommentNode, \
     ProcessingInstructionNode, DocumentNode, EtreeElementNode
@@ -478,6 +478,8 @@ def evaluate__ceiling_and_floor_functions(self: XPathFunction, context: ta.Conte
         return math.nan if self.parser.version == '1.0' else []
     elif isinstance(arg, XPathNode) or self.parser.compatibility_mode:
         arg = self.number_value(arg)
+    elif isinstance(arg, UntypedAtomic):
+        arg = self.cast_to_double(arg.value)  # function conversion rules: cast to xs:double
 
     try:
         if math.isnan(arg) or math.isinf(arg):
